@@ -82,7 +82,7 @@ Lemma negbinomial_formula r p : 0 < r -> 0 < p < 1 ->
     (forall k, (k < 0)%Z -> nb_logpdf lgam d (IZR k) = Val NInf) /\
     (forall x, is_intb x = false -> nb_logpdf lgam d x = Val NInf).
 Proof.
-  intros Hr [H0 H1]. unfold nb_new. rewrite Rleb_f, !Rltb_f by lra. cbn [orb].
+  intros Hr [H0 H1]. unfold nb_new. rewrite !Rleb_f, !Rltb_f by lra. cbn [orb].
   eexists; split; [reflexivity|]. repeat split; unfold nb_logpdf; cbn [m_r m_lp m_z m_c1].
   - intros k Hk. rewrite is_intb_IZR. pose proof (IZR_nonneg k Hk). rewrite Rltb_f by lra. cbn [negb orb].
     destruct (Reqb (IZR k) 0) eqn:E; [apply Reqb_true in E|];
